@@ -26,3 +26,5 @@ def run(ctx, res):
     textrules.rule_utf8_writers(prog, res)
     textrules.rule_limits(prog, res)
     lists.rule_strings(prog, res)
+    import bitio
+    bitio.import_transport(prog, res, signed=False)
